@@ -5,7 +5,7 @@ from . import reflex
 
 
 class Laid:
-    __slots__ = ("text", "pos", "nmarkers", "nfilechanges", "inside_markers")
+    __slots__ = ("text", "pos", "nmarkers", "nfilechanges", "inside_markers", "extra")
 
     def __init__(self):
         self.text = ""
@@ -13,6 +13,7 @@ class Laid:
         self.nmarkers = 0
         self.nfilechanges = 0
         self.inside_markers = []  # token indices directly preceded by a linemarker
+        self.extra = {}  # further token starts: position -> index of the owning token (pragma strings)
 
 
 WS = [" ", " ", "  ", "\t", "\n", "\n  ", " \n\t", "\n\n", " \t "]
@@ -55,6 +56,11 @@ def lay_out(toks, c, style="random", filename="f.c", marker_p=0.08, file_change=
             emit(lead)
             # the PPPRAGMA token starts at 'pragma'
             out.pos.append((st["file"], st["line"], st["col"] + 1))
+            # the text after 'pragma' is a token of its own (PPPRAGMASTR)
+            rest = t.s[len("#pragma") :]
+            if rest.strip(" \t"):
+                lead_ws = len(rest) - len(rest.lstrip(" \t"))
+                out.extra[(st["file"], st["line"], st["col"] + len("#pragma") + lead_ws)] = len(out.pos) - 1
             emit(t.s)
             emit("\n")
             prev = None
